@@ -118,6 +118,18 @@ fn main() {
             for op in ["remove_all", "remove_only", "get_only"] { n += 1; if let Some(m) = run(&format!("X-{xs}1,other,X-{ys}1"), op, &format!("x-{ys}1")) { if found.len() < 5 { found.push(m) } } }
         }
     }}
+    // lookup names outside ASCII never match a field (names are pure ASCII; only ASCII letters fold): every character
+    // below U+10000 whose Unicode lower / upper case form contains an ASCII character (KELVIN SIGN, LONG S, dotted I ...)
+    for cp in 0x80u32..0x10000 {
+        let Some(c) = char::from_u32(cp) else { continue };
+        let folds: Vec<char> = c.to_lowercase().chain(c.to_uppercase()).filter(char::is_ascii_alphanumeric).collect();
+        for l in folds { for stored in [l.to_ascii_lowercase(), l.to_ascii_uppercase()] {
+            for op in ["get_all", "get_only", "remove_all", "remove_only"] {
+                n += 1;
+                if let Some(m) = run(&format!("x{stored}y,other,X{stored}Y"), op, &format!("x{c}y")) { if found.len() < 5 { found.push(m) } }
+            }
+        } }
+    }
     let (cn, cf) = check_ctors();
     n += cn;
     found.extend(cf);
